@@ -154,30 +154,50 @@ def java_cmd(xmx="1g", deque=False, tiered=True):
     return c + ["-cp", JAR, "tlc2.TLC"]
 
 
-_balanced_open = re.compile(r'<<"(VERDICT|REPLAY|TRACE-NOT-CONSUMED|INFO)"')
+_balanced_open = re.compile(r'<<\s*"(VERDICT|REPLAY|TRACE-NOT-CONSUMED|INFO)"')
+
+
+def _norm(t):
+    t = re.sub(r"\s+", " ", t)
+    t = re.sub(r"<< ", "<<", t)
+    t = re.sub(r" >>", ">>", t)
+    t = re.sub(r"\{ ", "{", t)
+    t = re.sub(r" \}", "}", t)
+    return t
+
+
+def _depth(s):
+    # brackets inside string literals do not occur in what the specs print (classes use | and =)
+    return s.count("<<") + s.count("{") + s.count("[") - s.count(">>") - s.count("}") - s.count("]")
 
 
 def collect_tuples(text):
     """TLC pretty-prints long values over several lines; re-assemble every printed tuple that starts
-    with a known tag into one string"""
+    with a known tag into one normalised string.  The number of tags found in the raw text must equal
+    the number of tuples re-assembled (nothing is dropped silently)."""
     out = []
     cur = None
     depth = 0
     for line in text.splitlines():
+        s = line.strip()
         if cur is None:
-            if _balanced_open.match(line.strip()):
-                cur = line.strip()
-                depth = cur.count("<<") + cur.count("{") + cur.count("[") - cur.count(">>") - cur.count("}") - cur.count("]")
+            if _balanced_open.match(s):
+                cur = s
+                depth = _depth(s)
                 if depth <= 0:
-                    out.append(cur)
+                    out.append(_norm(cur))
                     cur = None
         else:
-            s = line.strip()
             cur += " " + s
-            depth += s.count("<<") + s.count("{") + s.count("[") - s.count(">>") - s.count("}") - s.count("]")
+            depth += _depth(s)
             if depth <= 0:
-                out.append(cur)
+                out.append(_norm(cur))
                 cur = None
+    if cur is not None:
+        raise ToolError("unterminated tuple in TLC output: " + cur[:200])
+    raw = len(re.findall(r'<<\s*"(?:VERDICT|REPLAY|TRACE-NOT-CONSUMED|INFO)"', text))
+    if raw != len(out):
+        raise ToolError(f"TLC output: {raw} tagged tuples printed but {len(out)} re-assembled")
     return out
 
 
